@@ -50,12 +50,15 @@ func (s *Segment) getDocStoredOffsets(docNum uint64) (indexOffset, storedOffset,
 	}
 	verifGate("stored:decompressed")
 
-	metaLenData := s.storedFieldChunkUncompressed[int(storedOffset):int(storedOffset+binary.MaxVarintLen64)]
+	// the length prefixes are read from what is left of the block: a fixed
+	// look-ahead of MaxVarintLen64 bytes can reach past the end of the buffer
+	// when the document's record is short and sits at the end of the block
+	metaLenData := s.storedFieldChunkUncompressed[int(storedOffset):]
 	var read int
 	metaLen, read = binary.Uvarint(metaLenData)
 	n += uint64(read)
 
-	dataLenData := s.storedFieldChunkUncompressed[int(storedOffset+n):int(storedOffset+n+binary.MaxVarintLen64)]
+	dataLenData := s.storedFieldChunkUncompressed[int(storedOffset+n):]
 	dataLen, read = binary.Uvarint(dataLenData)
 	n += uint64(read)
 
